@@ -211,4 +211,8 @@ package types
 
 // ---- the trusting period is small enough for timestamp + trusting period not to wrap (C18: a created client is active) ----
 // verif:func (ClientState).Validate
-//@ ensures [trusting-period-bounded] result == nil ==> m.TrustingPeriod <= 0x7fffffffffffffff
+//@ ensures [trusting-period-bounded] result == nil ==> m.TrustingPeriod <= 0x7fffffffffffffff && m.Header.Time <= 0x7fffffffffffffff
+// as for the ETH client: the anchor is not block 0 (its consensus state would sit at height zero, which genesis
+// validation rejects); the epoch length is not zero (every block number is divided by it)
+//@ ensures [not-anchored-at-block-zero] result == nil ==> m.Header.Height.RevisionHeight != 0
+//@ ensures [epoch-non-zero] result == nil ==> m.Epoch != 0
